@@ -137,13 +137,15 @@ def regex(ctx: Any) -> List[Ob]:
     uses: Dict[str, Set[str]] = {}
     for c in walk_local_ordered(f.node):
         if isinstance(c, ast.Call) and isinstance(c.func, ast.Attribute) and c.func.attr in ('search', 'match', 'fullmatch'):
-            base = c.func.value
-            names = [base.id] if isinstance(base, ast.Name) else []
-            if isinstance(base, ast.Name):
-                # a local chosen by a conditional expression between two patterns
-                for st in walk_local_ordered(f.node):
-                    if isinstance(st, ast.Assign) and any(isinstance(t, ast.Name) and t.id == base.id for t in st.targets) and isinstance(st.value, ast.IfExp):
-                        names = [norm(st.value.body), norm(st.value.orelse)]
+            from .common import expand as _xp
+
+            # the pattern object, read through the locals that name it; a conditional expression chooses between patterns
+            def pats(b: ast.AST) -> List[str]:
+                if isinstance(b, ast.IfExp):
+                    return pats(b.body) + pats(b.orelse)
+                return [b.id] if isinstance(b, ast.Name) else []
+
+            names = pats(_xp(f, c.func.value))
             for n in names:
                 uses.setdefault(n, set()).add(c.func.attr)
     ctx.counters['pattern_uses'] = {k: sorted(v) for k, v in uses.items()}
